@@ -9,6 +9,7 @@ Structural clauses decided (DESIGN.md §5 C01), over every body of the five libr
     tables/c01_loops.json and re-checked structurally (a variant that strictly progresses on every back edge)
  R4 no user-written `unsafe` in the five crates
  R5 every call into a dependency crate from the analysed code is in tables/trusted_api.json
+ R7 worker liveness: a service loop ends only on shutdown / queue disconnect / closed result channel, never because of a packet
  R6 no poisoning: interior-mutable analyzer state written on the per-input path is reset before each use (shared with C07-R1)
 """
 import json
@@ -773,7 +774,21 @@ def rule_poison(ctx):
     C07.rule_R1(ctx, "R6")
 
 
+def rule_liveness(ctx):
+    """R7: no input can stop a worker: the service loops end only on shutdown / disconnect / closed result channel (shared with C10.R5)"""
+    from . import _workers as W
+    P = ctx.program
+    for crate, fam in (("huginn_net_tcp", "tcp"), ("huginn_net_http", "http"), ("huginn_net_tls", "tls")):
+        wl = [b for b in P.method("WorkerPool", "worker_loop") if b.crate == crate]
+        wp = [b for b in P.method("WorkerPool", "process_packet") if b.crate == crate]
+        if len(wl) != 1:
+            ctx.cannot("R7", fam + ":worker_loop", "%d worker_loop bodies" % len(wl))
+            continue
+        W.exit_conditions(ctx, P, fam, wl[0], wp[0] if len(wp) == 1 else None, "R7")
+
+
 def run(ctx):
+    rule_liveness(ctx)
     rule_poison(ctx)
     rule_sites(ctx)
     rule_loops(ctx)
